@@ -1,6 +1,7 @@
 import Tfv.DriverCore
 import Tfv.Proofs.InferConstrMain
 import Tfv.Proofs.InferNoInternalTop
+import Tfv.Spec.HistoryShiftConstr
 /-!
 # tfv-inv — the hypotheses of the engine theorems, checked on the runs the correspondence check makes
 
@@ -15,7 +16,8 @@ Input: the protocol lines of the driver (`lang`, `infer`; other lines are ignore
 `inv <number of stores checked> <xyz>` with x, y, z ∈ {T, F}: `okStoreCB`, `chainsB`, `acyclicB` true on all of them.
 `OkStoreC` and `Chains` are invariants of the engine (theorems `…_keeps`), so x and y can only be T unless a checker is
 incomplete; `Acyclic` is a hypothesis of the witness theorems that the engine does not establish, so z says whether those
-theorems applied to the run.
+theorems applied to the run. A fourth character reports `historyStable` (T/F, `-` = arguments not concrete): the decidable hypothesis under
+which `C16s_history_independent_partial` says the run behind ANY history is the fresh run shifted.
 -/
 namespace Tfv
 open Tfv.C03C Tfv.C03P
@@ -39,6 +41,16 @@ def runInferInv (L : Lang) (s : Schema) (args : List (Nat × Term)) : Nat × Boo
         | .ok (σ2, r) => go σ2 r (n + 1) (and3 ok (invOk L σ2)) rest
     go σ f 1 (invOk L σ) args
 
+/-- The hypothesis `hstable` of `C16s_history_independent_partial` (by `C16s_history_independent_iff` it is also necessary): the use of
+the schema on CONCRETE arguments from the empty store does not depend on the fuel offsets a history of `kv` variables and `kc`
+constraints induces. Evaluated for three history sizes; `none` when an argument is not concrete (the theorem does not speak about it). -/
+def historyStable (L : Lang) (s : Schema) (args : List (Nat × Term)) : Option Bool :=
+  if args.all (fun a => a.1 == 0) && Term.closedL (args.map (·.2)) then
+    let xs := args.map (·.2)
+    let base := reprStr (useSchema L engineFuel true {} s xs)
+    some ([(3, 1), (17, 5), (100, 40)].all fun (kv, kc) => reprStr (useSchemaE L kv kc engineFuel true {} s xs) == base)
+  else none
+
 partial def invLoop (h : IO.FS.Stream) (out : IO.FS.Stream) (st : DState) : IO Unit := do
   let line ← h.getLine
   if line.isEmpty then return ()
@@ -50,7 +62,9 @@ partial def invLoop (h : IO.FS.Stream) (out : IO.FS.Stream) (st : DState) : IO U
       | some s, some args =>
         let (n, a, b, c) := runInferInv st.lang s args
         let f (x : Bool) := if x then "T" else "F"
-        out.putStrLn s!"inv {n} {f a}{f b}{f c}"
+        let h := match historyStable st.lang s args with
+          | some true => "T" | some false => "F" | none => "-"
+        out.putStrLn s!"inv {n} {f a}{f b}{f c}{h}"
       | _, _ => out.putStrLn "bad-line"
       invLoop h out st
     | .list (.atom "lang" :: _) =>
